@@ -35,7 +35,7 @@ def time_tree_json(rng, n):
     return d, t, names, dates
 
 
-def build_scenario(rng, tier):
+def build_scenario(rng, tier, idx=None):
     """A small joint model over a time tree; returns (dict of named densities, dic of objects)."""
     torch = impl.load()
     from torchtree.core.utils import process_objects
@@ -70,8 +70,10 @@ def build_scenario(rng, tier):
             "branch_model": {"id": "clock", "type": clock_kind, "tree_model": "tree",
                              "rate": impl.param_json("clock_rate", [math.exp(rng.uniform(-3.5, -1.5)) for _ in range(nrates)])},
             "use_tip_states": rng.random() < 0.3}
-    coal_kind = rng.choice(["ConstantCoalescentModel", "ExponentialCoalescentModel", "PiecewiseConstantCoalescentModel",
-                            "PiecewiseConstantCoalescentGridModel", "PiecewiseLinearCoalescentGridModel"])
+    kinds = ["PiecewiseLinearCoalescentGridModel", "ConstantCoalescentModel", "PiecewiseConstantCoalescentGridModel",
+             "ExponentialCoalescentModel", "PiecewiseConstantCoalescentModel"]
+    # every family in turn (a run of a few scenarios must not depend on luck to meet one of them)
+    coal_kind = rng.choice(kinds) if idx is None else kinds[idx % len(kinds)]
     coal = {"id": "coalescent", "type": coal_kind, "tree_model": "tree"}
     if coal_kind == "ConstantCoalescentModel":
         coal["theta"] = impl.param_json("theta", [math.exp(rng.uniform(0, 2))])
@@ -84,6 +86,9 @@ def build_scenario(rng, tier):
         k = rng.randint(3, 5)
         coal["theta"] = impl.param_json("theta", [math.exp(rng.uniform(0, 2)) for _ in range(k)])
         coal["cutoff"] = rng.uniform(1.0, 6.0)
+        if rng.random() < 0.6:
+            # the grid ends below the root: some coalescent intervals lie where the population size is constant
+            coal["cutoff"] = float(tree["root_height"]["tensor"][0]) * rng.uniform(0.3, 0.8)
     gmrf = {"id": "gmrf", "type": "GMRF", "x": "theta" if len(coal["theta"]["tensor"]) > 1 else
             impl.param_json("field", [rng.uniform(-1, 1) for _ in range(4)]),
             "precision": impl.param_json("gmrf_precision", [math.exp(rng.uniform(-1, 1))])}
@@ -542,7 +547,7 @@ def run(tier, seed, replay=None):
     n_coord = 0
     for s in range(nscen):
         try:
-            dens, dic, desc = build_scenario(rng, tier)
+            dens, dic, desc = build_scenario(rng, tier, s)
         except Exception as e:
             found.setdefault(f"C12:scenario-raises:{type(e).__name__}",
                              (f"C12:scenario-raises:{type(e).__name__}", f"building the joint model raised {type(e).__name__}: {str(e)[:200]}", {}))
